@@ -88,6 +88,7 @@ func (f cbFunc) UpdateProperties(o tabular.PropertyOwner) error { return f(o) }
 // as a violation of the renderer's own property.
 type stage struct {
 	At        int
+	More      []int // further intermediate render points (a third of the staged cases have 1-2 of them)
 	PreAligns []int
 	Note      string
 }
@@ -98,12 +99,20 @@ func drawStage(r *gen.R, nrows, ncols int) *stage {
 		return nil
 	}
 	st := &stage{At: r.Range(0, nrows), PreAligns: make([]int, ncols+1)}
+	if r.Chance(1, 3) {
+		for k := r.Range(1, 2); k > 0; k-- {
+			st.More = append(st.More, r.Range(0, nrows))
+		}
+	}
 	for k := range st.PreAligns {
 		st.PreAligns[k] = r.Intn(4)
 	}
-	st.Note = fmt.Sprintf("staged: wrapper reused; first render after %d row operations under alignments %v", st.At, st.PreAligns)
+	st.Note = fmt.Sprintf("staged: wrapper reused; earlier renders after %d %v row operations under alignments %v", st.At, st.More, st.PreAligns)
 	return st
 }
+
+// points lists all intermediate render points of the stage.
+func (st *stage) points() []int { return append([]int{st.At}, st.More...) }
 
 // setAlignsExactly puts an alignment assignment in force, clearing every column that is unset in it.
 func setAlignsExactly(t tabular.Table, a []int) {
